@@ -332,17 +332,31 @@ func Harness_ingest_identity() {
 	}
 	r1, r2 := zzverif.Uint64("runSize1"), zzverif.Uint64("runSize2")
 	zzverif.Assume(r1 >= 1 && r2 >= 1)
+	// part 0 = both halves in one run; 1 = only "same table, same identifier";
+	// 2 = only "one cell changed, different identifier" (the product of three
+	// symbolic ingests is split for the larger row counts)
+	part := zzverif.Param("part", 0)
 	db1, db2 := zzrepo.NewAssocStore(), zzrepo.NewAssocStore()
 	s1, err1 := zzIngest(db1, in, ncols, pk, r1, zzverif.Param("workers1", 1))
-	s2, err2 := zzIngest(db2, perm, ncols, pk, r2, zzverif.Param("workers2", 1))
-	zzverif.Assert("ingest-no-error", err1 == nil && err2 == nil)
-	if err1 != nil || err2 != nil {
+	zzverif.Assert("ingest-no-error", err1 == nil)
+	if err1 != nil {
 		return
 	}
-	zzverif.Assert("same-logical-table-same-identifier", bytes.Equal(s1, s2))
-	t1, _ := db1.Get(append([]byte("tbl/"), s1...))
-	t2, _ := db2.Get(append([]byte("tbl/"), s2...))
-	zzverif.Assert("same-logical-table-same-bytes", bytes.Equal(t1, t2))
+	if part != 2 {
+		s2, err2 := zzIngest(db2, perm, ncols, pk, r2, zzverif.Param("workers2", 1))
+		zzverif.Assert("ingest-no-error", err2 == nil)
+		if err2 != nil {
+			return
+		}
+		zzverif.Assert("same-logical-table-same-identifier", bytes.Equal(s1, s2))
+		t1, _ := db1.Get(append([]byte("tbl/"), s1...))
+		t2, _ := db2.Get(append([]byte("tbl/"), s2...))
+		zzverif.Assert("same-logical-table-same-bytes", bytes.Equal(t1, t2))
+	}
+	if part == 1 {
+		zzverif.Reach("end")
+		return
+	}
 	// one cell changed => different identifier
 	mod := make([][]string, nrows)
 	for i := range in {
